@@ -30,6 +30,7 @@ type lexCheckSpec struct {
 	nontrivial func(lc *LCase, in []byte, ref *lexref.Result) bool
 	extra     func(c *Ctx, lc *LCase, in []byte, ref *lexref.Result, obs *hc.LexRun) string // additional oracle
 	skipCase  func(ref *lexref.Result) bool
+	always    func(c *Ctx, lc *LCase, in []byte, obs *hc.LexRun) string // oracle that also applies to inputs skipCase leaves unjudged
 	inputs    func(lc *LCase, r *rng.R) [][]byte // overrides the generic input generator
 	noRef     bool // do not compare with the reference token stream (C11: the oracle is conservation, not equality)
 	violKind  string
@@ -181,6 +182,12 @@ func lexRunBatch(c *Ctx, sp *lexCheckSpec, r *rng.R, b *run.Batch, cases []*LCas
 			c.Ev.Eval(1)
 			if sp.skipCase != nil && sp.skipCase(ref) {
 				c.Ev.Count("inputs_outside_the_property", 1)
+				if sp.always != nil {
+					if why := sp.always(c, lc, in, obs); why != "" {
+						c.Violation("token-stream-differs", lc.replay(fmt.Sprintf("input %q: %s", in, why),
+							[]hc.Job{run.MkJob(1, "", "lex", hc.LexJob{Inputs: [][]byte{in}, Rec: true})}, nil, showObsToks(obs.Toks, 40)))
+					}
+				}
 				continue
 			}
 			if !sp.noRef && ref.PopEmpty {
